@@ -25,11 +25,18 @@ using namespace tbox; using namespace tbox::terminal;
 // ---- idle seam: an epoll loop that would block with nothing ready gets a stop request instead --------------
 static event::CommonLoop *g_idle_loop = nullptr;
 static long g_idle_stops = 0;
+static std::function<bool()> g_idle_step;   // harness step taken when the loop is idle; false = no step left
 }  // namespace c13
 extern "C" int epoll_wait(int epfd, struct epoll_event *ev, int maxev, int timeout) {
   int n = (int)syscall(SYS_epoll_wait, epfd, ev, maxev, 0);
-  if (n == 0 && timeout != 0) { if (c13::g_idle_loop) { c13::g_idle_stops++; c13::g_idle_loop->stopLoop(); } else n = (int)syscall(SYS_epoll_wait, epfd, ev, maxev, timeout); }
-  return n;
+  if (n != 0 || timeout == 0) return n;
+  if (!c13::g_idle_loop) return (int)syscall(SYS_epoll_wait, epfd, ev, maxev, timeout);
+  // idle: nothing ready and nothing deferred. Let the harness take its next step (the loop then iterates once more,
+  // running whatever the step deferred), or stop the loop when there is no step left.
+  c13::g_idle_stops++;
+  if (c13::g_idle_step && c13::g_idle_step()) return 0;
+  c13::g_idle_loop->stopLoop();
+  return 0;
 }
 namespace c13 {
 // run the real loop until it has nothing left to do (fd events, deferred closures and their follow-ups)
@@ -38,6 +45,15 @@ inline void pump(event::Loop *loop) {
   loop->runNext([] {});                 // first poll with zero timeout
   loop->runLoop(event::Loop::Mode::kForever);
   g_idle_loop = nullptr;
+}
+// run the loop once; every time it becomes idle the next step is taken; returns when idle after the last step
+inline void run_steps(event::Loop *loop, const std::vector<std::function<void()>> &steps) {
+  size_t i = 0;
+  g_idle_step = [&]() -> bool { if (i >= steps.size()) return false; steps[i++](); return true; };
+  struct Reset { ~Reset() { g_idle_step = nullptr; g_idle_loop = nullptr; } } reset;
+  g_idle_loop = static_cast<event::CommonLoop *>(loop);
+  loop->runNext([] {});
+  loop->runLoop(event::Loop::Mode::kForever);
 }
 
 inline std::string esc(const std::string &s) {
@@ -64,6 +80,7 @@ struct FakeConn : Connection {
 struct Worker {
   std::function<std::string(const std::string &)> fn;   // runs in the child
   int recycle_after = 4000, job_timeout_s = 20;
+  std::function<void()> child_cleanup;   // child side: runs before an orderly exit of the child
   bool poisoned = false;        // child side: set by fn when the child must not be reused (reply is still delivered)
   pid_t pid = -1; int to = -1, from = -1, err = -1; int served = 0; long spawned = 0;
 
@@ -79,13 +96,13 @@ struct Worker {
       int dn = open("/dev/null", O_WRONLY); dup2(dn, 1);
       signal(SIGPIPE, SIG_IGN); signal(SIGSEGV, SIG_DFL); signal(SIGABRT, SIG_DFL); signal(SIGBUS, SIG_DFL); signal(SIGFPE, SIG_DFL);
       for (;;) {
-        uint32_t n; if (!rd(a[0], &n, 4)) _exit(0);
+        uint32_t n; if (!rd(a[0], &n, 4)) { if (child_cleanup) child_cleanup(); _exit(0); }
         std::string job(n, '\0'); if (n && !rd(a[0], &job[0], n)) _exit(0);
         alarm((unsigned)job_timeout_s);
         std::string r = fn(job);
         alarm(0);
         uint32_t m = (uint32_t)r.size() | (poisoned ? 0x80000000u : 0u); if (!wr(b[1], &m, 4) || !wr(b[1], r.data(), r.size())) _exit(0);
-        if (poisoned) _exit(0);
+        if (poisoned) { if (child_cleanup) child_cleanup(); _exit(0); }
       }
     }
     close(a[0]); close(b[1]); close(e[1]); to = a[1]; from = b[0]; err = e[0];
